@@ -147,19 +147,27 @@ def target_array(res):
     return C.to_c(dual_plucker(res[1], res[2]))
 
 
-def build_single(arg, sc, cplx, line_via):
+def as_int(a, flag):
+    """integer dtype for integer-valued real arrays if requested (the library accepts any numeric dtype; mixed dtypes of
+    the arguments of one call are part of the input space)"""
+    if flag and not np.iscomplexobj(a) and np.all(a == np.round(a)) and np.max(np.abs(a)) < 2**40:
+        return a.astype(np.int64)
+    return a
+
+
+def build_single(arg, sc, cplx, line_via, int_dtype=False):
     s = C.cscale_value(sc) if cplx else C.scale_value(sc)
     if arg[0] == "P":
-        return Point(C.to_c(arg[1]) * s if cplx else np.array([float(x) for x in arg[1]]) * s)
+        return Point(as_int(C.to_c(arg[1]) * s if cplx else np.array([float(x) for x in arg[1]]) * s, int_dtype))
     if arg[0] == "H":
-        a = C.to_c(arg[1]) * s if cplx else np.array([float(x) for x in arg[1]]) * s
+        a = as_int(C.to_c(arg[1]) * s if cplx else np.array([float(x) for x in arg[1]]) * s, int_dtype)
         return Line(a) if len(arg[1]) == 3 else Plane(a)
     m = dual_plucker(arg[1], arg[2])
     a = C.to_c(m) if cplx else np.array([[float(x) for x in r] for r in m])
     return Line(pow2_normalise(a) * s)
 
 
-def build_coll(args_per_pos, sc, cplx, shape):
+def build_coll(args_per_pos, sc, cplx, shape, int_dtype=False):
     """stack one argument over all positions"""
     kind = args_per_pos[0][0]
     s = C.cscale_value(sc) if cplx else C.scale_value(sc)
@@ -169,7 +177,7 @@ def build_coll(args_per_pos, sc, cplx, shape):
         a = np.array([pow2_normalise(C.to_c(dual_plucker(a[1], a[2]))) for a in args_per_pos]) * s
     if not cplx:
         a = np.real(a)
-    a = a.reshape(tuple(shape) + a.shape[1:])
+    a = as_int(a.reshape(tuple(shape) + a.shape[1:]), int_dtype)
     if kind == "P":
         return PointCollection(a)
     if kind == "H":
@@ -199,8 +207,9 @@ def strategy_for(kind):
             scales = [draw(C.cscale() if cplx else C.scale()) for _ in range(nargs)]
             bcast = draw(st.sampled_from([None, None] + list(range(nargs)))) if shape else None
             via = draw(st.sampled_from(["func", "func", "method", "ctor"]))
+            ints = [draw(st.booleans()) for _ in range(nargs)]
             return {"kind": kind, "cplx": cplx, "shape": shape, "elems": elems, "coefs": coefs, "scales": scales,
-                    "bcast": bcast, "via": via}
+                    "bcast": bcast, "via": via, "int_dtype": ints}
 
         return s()
 
@@ -249,10 +258,11 @@ def run(case):
     # build library arguments
     objs = []
     for k in range(nargs):
+        idt = bool(case.get("int_dtype", [False] * nargs)[k])
         if shape is None or bc == k:
-            objs.append(build_single(per_pos_args[0][k], case["scales"][k], cplx, None))
+            objs.append(build_single(per_pos_args[0][k], case["scales"][k], cplx, None, idt))
         else:
-            objs.append(build_coll([per_pos_args[i][k] for i in range(npos)], case["scales"][k], cplx, shape))
+            objs.append(build_coll([per_pos_args[i][k] for i in range(npos)], case["scales"][k], cplx, shape, idt))
     ck = Checker()
     tgt = np.array([target_array(r) for r in per_pos_res])
     naxes = tgt.ndim - 1
@@ -342,6 +352,8 @@ def labels(case):
         out.append("broadcast")
     if not case["cplx"] and any(v[-1] == 0 for el in case["elems"] for v in el):
         out.append("has-infinite")
+    if any(case.get("int_dtype", [])) and not all(case.get("int_dtype", [])):
+        out.append("mixed-dtype-requested")
     return out
 
 
